@@ -59,6 +59,31 @@ def task(t):
             z = make("float64", t["cz"])
             x = make(t["ka"], t["ca"])
             return outcome(lambda: mg.multiply(x, 2.0, out=z, constant=arg))
+        if what == "out_array_binary":
+            x = make(t["ka"], t["ca"])
+            return outcome(lambda: mg.multiply(x, 2.0, out=np.zeros(3), constant=arg))
+        if what == "out_array_unary":
+            x = make(t["ka"], t["ca"])
+            return outcome(lambda: mg.negative(x, out=np.zeros(3), constant=arg))
+        if what == "out_array_where":
+            x = make(t["ka"], t["ca"])
+            return outcome(lambda: mg.add(x, 1.0, out=np.zeros(3), where=np.array([True, False, True]), constant=arg))
+        if what == "out_where_target":
+            z = make("float64", t["cz"])
+            x = make(t["ka"], t["ca"])
+            return outcome(lambda: mg.multiply(x, 2.0, out=z, where=np.array([True, False, True]), constant=arg))
+        if what == "out_unary_target":
+            z = make("float64", t["cz"])
+            x = make(t["ka"], t["ca"])
+            return outcome(lambda: mg.negative(x, out=z, constant=arg))
+        if what == "out_where_unary_target":
+            z = make("float64", t["cz"])
+            x = make(t["ka"], t["ca"])
+            return outcome(lambda: mg.negative(x, out=z, where=np.array([False, True, True]), constant=arg))
+        if what == "out_np_where_target":
+            z = make("float64", t["cz"])
+            x = make(t["ka"], t["ca"])
+            return outcome(lambda: np.multiply(x, 2.0, out=z, where=np.array([True, False, True])))
         if what == "iadd_target":
             z = make("float64", t["cz"])
             x = make(t["ka"], t["ca"])
